@@ -31,7 +31,10 @@ type vfC19Rule struct {
 	Invalid string // non-empty: why the constructor must reject it
 }
 
-func vfIs4(s string) bool { ip := net.ParseIP(strings.TrimSpace(s)); return ip != nil && ip.To4() != nil }
+func vfIs4(s string) bool {
+	ip := net.ParseIP(strings.TrimSpace(s))
+	return ip != nil && ip.To4() != nil
+}
 
 func vfC19GenRule(rng *rand.Rand, allowInvalid bool) vfC19Rule { //nolint:cyclop
 	var r AddressRewriteRule
